@@ -13,8 +13,9 @@
    health-check worker (it may store any verdict for any host at any time).
 
    One atomic step of the model = one atomic operation of the Go code together with the
-   thread-local code around it; upstream.Select is NOT atomic: it starts, reads the availability of
-   hosts one at a time (each read of host.Available() is one step) and returns.
+   thread-local code around it; upstream.Select is NOT atomic: it starts, evaluates host.Available()
+   for one host after the other — each evaluation being up to three separate atomic loads (Unhealthy,
+   then Fails, then Conns), each a step of its own — and returns.
    Definitions only; proofs are in C14_Proofs.v. *)
 Require Import V.Lib.
 Open Scope Z_scope.
@@ -30,7 +31,10 @@ Inductive outcome :=
 (* program counter of one request inside Proxy.ServeHTTP *)
 Inductive pc :=
 | Idle                                (* at the top of the for loop, about to call upstream.Select *)
-| Selecting (obs : list (nat * bool)) (* inside upstream.Select: the answers of host.Available() read so far, newest first *)
+| Selecting (obs : list (nat * bool)) (cur : option (nat * bool))
+                                      (* inside upstream.Select: the answers of host.Available() obtained so far, newest
+                                         first; cur = Some (h, st): in the middle of host h's Available(): Unhealthy was
+                                         loaded and is 0 (st = false), Fails too and is below max_fails (st = true) *)
 | Selected (h : option nat)           (* Select returned (or acquireConn found the host full: None), nothing counted yet:
                                          THE WINDOW *)
 | Acquiring (h : nat) (n : Z)         (* inside acquireConn: Conns = n was loaded and is below the cap, the
@@ -124,7 +128,8 @@ Definition set_robin (s : state) (r : N) : state :=
 Inductive label :=
 | LSpawn                           (* a new request enters ServeHTTP *)
 | LSelStart (t : nat)              (* the request enters upstream.Select(r) *)
-| LSelRead (t : nat) (h : nat)     (* one host.Available() inside Select (the scan of staticUpstream.Select or the policy) *)
+| LSelRead (t : nat) (h : nat)     (* the next atomic load of host h's Available() inside Select (the scan of
+                                      staticUpstream.Select or the policy): Unhealthy, then Fails, then Conns *)
 | LSelEnd (t : nat) (ho : option nat) (r : N)
                                    (* Select returns ho; the policy's counter becomes r.  Which answers are
                                       possible after which reads is the policy's contract [pol] *)
@@ -152,23 +157,41 @@ Definition after_forward (o : outcome) (h : nat) : pc :=
 
 Definition retry_pc (again : bool) : pc := if again then Idle else Done 502.
 
+(* host.Available() = !Down() && !Full(), Down() = Unhealthy != 0 || Fails >= MaxFails (short-circuit), one load at a time *)
+Definition read_next (c : config) (s : state) (h : nat) (obs : list (nat * bool)) (cur : option (nat * bool)) : option pc :=
+  match cur with
+  | None =>                                   (* atomic.LoadInt32(&uh.Unhealthy) *)
+      Some (if unhealthy s h then Selecting ((h, false) :: obs) None else Selecting obs (Some (h, false)))
+  | Some (h', st) =>
+      if Nat.eqb h h' then
+        if st
+        then                                  (* atomic.LoadInt64(&uh.Conns) in Full() *)
+          Some (Selecting ((h, negb (full c s h)) :: obs) None)
+        else                                  (* atomic.LoadInt32(&uh.Fails) >= u.MaxFails *)
+          Some (if c_max_fails c <=? fails s h then Selecting ((h, false) :: obs) None else Selecting obs (Some (h, true)))
+      else None
+  end.
+
 Definition step (c : config) (pol : policy) (s : state) (l : label) : option state :=
   match l with
   | LSpawn => Some (set_threads s (threads s ++ [Idle]))
   | LSelStart t =>
       match nth_error (threads s) t with
-      | Some Idle => Some (set_threads s (set_nth (threads s) t (Selecting [])))
+      | Some Idle => Some (set_threads s (set_nth (threads s) t (Selecting [] None)))
       | _ => None
       end
   | LSelRead t h =>
       match nth_error (threads s) t with
-      | Some (Selecting obs) =>
-          Some (set_threads s (set_nth (threads s) t (Selecting ((h, available c s h) :: obs))))
+      | Some (Selecting obs cur) =>
+          match read_next c s h obs cur with
+          | Some p => Some (set_threads s (set_nth (threads s) t p))
+          | None => None
+          end
       | _ => None
       end
   | LSelEnd t ho r =>
       match nth_error (threads s) t with
-      | Some (Selecting obs) =>
+      | Some (Selecting obs None) =>
           if pol obs ho then Some (set_robin (set_threads s (set_nth (threads s) t (Selected ho))) r) else None
       | _ => None
       end
@@ -345,7 +368,7 @@ Definition pc_ev (p : option pc) : ev :=
   match p with
   | Some (Done c) => EvDone c
   | Some Idle => EvIdle
-  | Some (Selecting _) => EvMid
+  | Some (Selecting _ _) => EvMid
   | Some (Selected h) => EvSel h
   | Some (Forwarding h) => EvFwd h
   | _ => EvNone
@@ -370,6 +393,10 @@ Fixpoint fire_due (c : config) (pol : policy) (s : state) (fuel : nat) : option 
            end
   end.
 
+(* the loads of one host.Available() in a state that does not change meanwhile *)
+Definition avail_labels (c : config) (s : state) (t : nat) (h : nat) : list label :=
+  repeat (LSelRead t h) (if unhealthy s h then 1%nat else if c_max_fails c <=? fails s h then 2%nat else 3%nat).
+
 (* the hosts read by the all-unavailable scan of staticUpstream.Select: up to the first available one *)
 Fixpoint scan_reads (c : config) (s : state) (hs : list nat) : list nat :=
   match hs with
@@ -384,12 +411,12 @@ Definition sel_scan (c : config) (pol : policy) (s : state) (t : nat) : option s
   | Some s1 =>
       match c_hosts c with
       | 1%nat =>
-          match step c pol s1 (LSelRead t 0%nat) with
+          match run c pol s1 (avail_labels c s t 0%nat) with
           | Some s2 => step c pol s2 (LSelEnd t (if available c s 0%nat then Some 0%nat else None) (robin s))
           | None => None
           end
       | n =>
-          match run c pol s1 (map (LSelRead t) (scan_reads c s (seq 0 n))) with
+          match run c pol s1 (flat_map (avail_labels c s t) (scan_reads c s (seq 0 n))) with
           | Some s2 => if existsb (available c s) (seq 0 n) then Some s2
                        else step c pol s2 (LSelEnd t None (robin s))
           | None => None
@@ -401,9 +428,9 @@ Definition sel_scan (c : config) (pol : policy) (s : state) (t : nat) : option s
 (* Policy.Select [ps] on the pool as it is now, and the return of Select *)
 Definition sel_policy (c : config) (pol : policy) (ps : psel) (s : state) (t : nat) : option state :=
   match nth_error (threads s) t with
-  | Some (Selecting _) =>
+  | Some (Selecting _ _) =>
       let '(ho, r) := ps s in
-      match run c pol s (map (LSelRead t) (seq 0 (c_hosts c))) with
+      match run c pol s (flat_map (avail_labels c s t) (seq 0 (c_hosts c))) with
       | Some s1 => step c pol s1 (LSelEnd t ho r)
       | None => None
       end
@@ -427,7 +454,7 @@ Definition hexec (c : config) (pol : policy) (ps : psel) (s : state) (h : hstep)
       match sel_scan c pol s t with
       | Some s1 =>
           match nth_error (threads s1) t with
-          | Some (Selecting _) =>
+          | Some (Selecting _ _) =>
               match sel_policy c pol ps s1 t with
               | Some s2 => Some (s2, pc_ev (nth_error (threads s2) t))
               | None => None
